@@ -28,6 +28,15 @@ def check(run):
         run.guard("C14.2.inverse-constants", cfg, lambda: rule_constants(run, F, cfg))
         run.guard("C14.3.removal-condition", cfg, lambda: rule_removal(run, F, cfg))
         run.guard("C14.4.important-suppresses", cfg, lambda: rule_important(run, F, cfg))
+        run.guard("C14.5.option-parse", cfg, lambda: rule_option(run, F, cfg))
+        from . import C01 as _C01, C03 as _C03, C05 as _C05
+        b1 = run.borrow("C01", only=r"removeparam", why="a removeparam rule indexed under a token the URL lacks is never applied")
+        run.guard("C14.via.C01.1.token-source", cfg, lambda: _C01.rule_removeparam_tokens(b1, F, cfg))
+        b2 = run.borrow("C03", only=r"IS_REMOVEPARAM|negated-types-removed-last",
+                        why="removeparam rules default to document / subdocument / xhr requests")
+        run.guard("C14.via.C03.8.implicit-types", cfg, lambda: _C03.rule_implicit_types(b2, F, cfg))
+        b3 = run.borrow("C05", only=r"removeparam", why="removeparam rules are never fused")
+        run.guard("C14.via.C05.3.what-is-optimised", cfg, lambda: _C05.rule_what(b3, F, cfg))
 
 
 def rule_pieces(run, F, cfg):
@@ -169,6 +178,78 @@ def rule_removal(run, F, cfg):
     run.ob("C14.3.removal-condition", "some-only-if-rewritten", ok_r and some == 1,
            f"Some(new_url) is returned only on the branch where the rewrite flag is set ({some} Some result)",
            config=cfg)
+    # flag discipline: include starts true, rewrite starts false, they change together, and the filter keeps
+    # exactly the entries whose flag is still set
+    cls = F.closures_of(AR)
+    tup = []
+    for c in cls:
+        for b, i, st in c.statements():
+            if st["k"] == "assign" and st["rv"]["k"] == "agg" and st["rv"].get("agg") == "tuple" and len(st["rv"]["ops"]) == 2:
+                tup.append([c.expr_operand(o) for o in st["rv"]["ops"]])
+    run.ob("C14.3.removal-condition", "include-starts-true", tup == [["arg:param", "true"]],
+           f"every parsed parameter starts as (param, true), i.e. kept ({tup})", config=cfg)
+    rw = [l for l, nme in f.varnames.items() if nme == "rewrite"]
+    inits = []
+    for b, i, st in f.statements():
+        if st["k"] == "assign" and not st["pl"]["p"] and rw and st["pl"]["l"] == rw[0]:
+            inits.append(f.expr_rvalue(st["rv"]))
+    run.ob("C14.3.removal-condition", "rewrite-starts-false", len(rw) == 1 and inits == ["false"],
+           f"the `rewrite` flag is initialised to false and never assigned directly afterwards ({inits})", config=cfg)
+    together = True
+    n_inc = n_rw = 0
+    for c in cls:
+        inc_blocks, rw_blocks = [], []
+        for b, i, st in c.statements():
+            if st["k"] != "assign" or st["rv"]["k"] != "use" or st["rv"]["op"].get("k") != "const" or not st["pl"]["p"]:
+                continue
+            tgt, val = c.expr_place(st["pl"]), c.expr_operand(st["rv"]["op"])
+            if tgt == "up:rewrite":
+                rw_blocks.append((b, val))
+            elif val in ("true", "false"):
+                inc_blocks.append((b, val))
+        n_inc += len(inc_blocks)
+        n_rw += len(rw_blocks)
+        if sorted(b for b, v in inc_blocks) != sorted(b for b, v in rw_blocks):
+            together = False
+        if any(v != "true" for b, v in rw_blocks) or any(v != "false" for b, v in inc_blocks):
+            together = False
+    run.ob("C14.3.removal-condition", "flags-change-together", together and n_inc == n_rw == 1,
+           f"`rewrite = true` is written exactly where `*include = false` is (same block), and nowhere else "
+           f"({n_inc} include writes, {n_rw} rewrite writes)", config=cfg)
+    # the switch on `rewrite`: Some only on the non-zero side
+    def _is_rw(b, op):
+        if op.get("k") not in ("copy", "move") or op["pl"]["p"]:
+            return False
+        if op["pl"]["l"] == rw[0]:
+            return True
+        # a temporary copied from the flag in the same block
+        for st in f.blocks[b]["s"]:
+            if st["k"] == "assign" and not st["pl"]["p"] and st["pl"]["l"] == op["pl"]["l"] and st["rv"]["k"] == "use":
+                o2 = st["rv"]["op"]
+                return o2.get("k") in ("copy", "move") and not o2["pl"]["p"] and o2["pl"]["l"] == rw[0]
+        return False
+
+    sw = [(b, f.blocks[b]["t"]) for b in sorted(f.normal_blocks())
+          if f.blocks[b]["t"]["k"] == "switch" and rw and _is_rw(b, f.blocks[b]["t"]["discr"])]
+    somes = [b for b, i, st in f.statements() if st["k"] == "assign" and st["rv"]["k"] == "agg"
+             and st["rv"].get("adt") == "std::option::Option" and st["rv"].get("variant") == "Some"]
+    ok_sw = len(sw) == 1 and len(somes) == 1
+    if ok_sw:
+        b, t = sw[0]
+        zero = [tb for v, tb in t["targets"] if v == 0]
+        nonzero = [tb for v, tb in t["targets"] if v != 0] + ([t["otherwise"]] if t.get("otherwise") is not None else [])
+        ok_sw = len(zero) == 1 and all(f.dominates(nz, somes[0]) or nz == somes[0] for nz in nonzero) \
+            and somes[0] not in f.reachable_from(zero[0])
+    run.ob("C14.3.removal-condition", "some-iff-rewrite-flag", ok_sw,
+           "the single Some(new_url) is built on the `rewrite == true` side of the single test of that flag and is "
+           "unreachable from the false side", config=cfg)
+    keep = [c.expr_local(0) for c in cls if c.name.endswith("{closure#3}")]
+    nots = [1 for c in cls if c.name.endswith("{closure#3}") for b, i, st in c.statements()
+            if st["k"] == "assign" and st["rv"]["k"] == "unop"]
+    flt = f.calls(r"^std::iter::Iterator::filter$")
+    run.ob("C14.3.removal-condition", "filter-keeps-included", keep == ["arg:2.1"] and not nots and len(flt) == 1,
+           f"the re-join keeps exactly the entries whose include flag is true (filter closure returns {keep}, "
+           f"no negation)", config=cfg)
     # all removeparam filters are consulted
     ca = f.calls(r"^network_filter_list::NetworkFilterList::check_all$")
     run.ob("C14.3.removal-condition", "check_all", len(ca) == 1 and f.expr_operand(ca[0][1]["args"][0]) == "arg:removeparam_filters",
@@ -206,3 +287,62 @@ def rule_important(run, F, cfg):
     callers = sorted(set(g.name for g, b, t in F.callers_of(r"^blocker::Blocker::apply_removeparam$")))
     run.ob("C14.4.important-suppresses", "single-caller", callers == ["blocker::Blocker::check_parameterised"],
            f"apply_removeparam has a single caller ({callers})", config=cfg)
+
+
+def rule_option(run, F, cfg):
+    """`$removeparam=name`: negation, empty value and regex-like values are rejected; the stored parameter is
+    the option value, verbatim."""
+    from .C03 import option_arms
+    arms = option_arms(F).get("removeparam", set())
+    want = {"Removeparam", "Err:NegatedRemoveparam", "Err:EmptyRemoveparam", "Err:RemoveparamRegexUnsupported"}
+    run.ob("C14.5.option-parse", "arms", set(arms) == want,
+           f"parse_filter_options maps `removeparam` to {sorted(arms)} (expected {sorted(want)})", config=cfg)
+    f = F.fn("filters::abstract_network::parse_filter_options")
+    run.touched(f)
+    aggs = [(b, st) for b, i, st in f.statements()
+            if st["k"] == "assign" and st["rv"]["k"] == "agg" and st["rv"].get("variant") == "Removeparam"
+            and str(st["rv"].get("adt", "")).endswith("NetworkFilterOption")]
+    ok = len(aggs) == 1
+    detail = ""
+    if ok:
+        b, st = aggs[0]
+        val = f.vexpr_operand(st["rv"]["ops"][0])
+        c = dominating_conditions(f, b, render=f.vexpr_operand)
+        nonempty = c.get("core::str::is_empty($value)") == 0
+        valid = any(re.search(r"Regex::is_match\(.*VALID_PARAM\), \$value\)$", k) and v == 1 for k, v in c.items())
+        ok = nonempty and valid and bool(re.search(r"From<&str>>::from\(\$value\)$|to_string\(\$value\)$|to_owned\(\$value\)$", val))
+        detail = f"value = {val}; non-empty guard {nonempty}; VALID_PARAM guard {valid}"
+    run.ob("C14.5.option-parse", "value-verbatim-and-validated", ok,
+           "Removeparam(value) stores the option value unchanged, only when it is non-empty and matches VALID_PARAM "
+           "(a plain parameter name: regex / literal-with-special-characters forms are unsupported and rejected)",
+           site=f.loc(aggs[0][0]) if aggs else f.loc(0), config=cfg, detail=detail)
+    # NetworkFilter::parse (the option loop is a closure over `mask` / `modifier_option`)
+    g = F.fn("filters::network::NetworkFilter::parse")
+    vi = _variant_index(F, "Removeparam")
+    sets, stores = [], []
+    for h in [g] + F.closures_of(g.name):
+        for b, t in h.calls(r"::set$"):
+            if "IS_REMOVEPARAM" in h.vexpr_operand(t["args"][1]):
+                c = dominating_conditions(h, b, render=h.vexpr_operand)
+                sets.append((h.vexpr_operand(t["args"][0]), h.vexpr_operand(t["args"][2]),
+                             any(k.startswith("discr(") and v == vi for k, v in c.items())))
+        for b, i, st in h.statements():
+            if st["k"] != "assign" or not re.search(r"(up:|\$)modifier_option$", h.vexpr_place(st["pl"])):
+                continue
+            val = h.vexpr_rvalue(st["rv"])
+            if not val.startswith("std::option::Option::Some{"):
+                continue
+            c = dominating_conditions(h, b, render=h.vexpr_operand)
+            if any(k.startswith("discr(") and v == vi for k, v in c.items()):
+                stores.append(val)
+    ok = len(sets) == 1 and sets[0][1] == "true" and sets[0][2] and len(stores) == 1 \
+        and bool(re.search(r"@Removeparam\.0\}$", stores[0]))
+    run.ob("C14.5.option-parse", "mask-and-name-set-together", ok,
+           f"the Removeparam arm of NetworkFilter::parse sets IS_REMOVEPARAM and stores the option's own value in "
+           f"modifier_option (flag sets {sets}, stores {stores})", config=cfg)
+
+
+def _variant_index(F, name):
+    adt = F.adts.get("filters::abstract_network::NetworkFilterOption")
+    names = [v["name"] for v in adt["variants"]] if adt else []
+    return names.index(name) if name in names else -1
